@@ -112,6 +112,10 @@ SITES = {
     "index_force": lambda Q, N: Q.from_(T()).select("a").force_index(N),
     "index_use": lambda Q, N: Q.from_(T()).select("a").use_index(Index(N)),
     "for_update_of": lambda Q, N: Q.from_(T()).select("a").for_update(of=(N,)),
+    # the column list of a CTE; lock targets that differ in case only
+    "cte_columns": lambda Q, N: Q.with_(Query.from_(U()).select("a", "b"), "c9", Field(N), Field("k9")).from_(AliasedQuery("c9")).select("*"),
+    "cte_columns_last": lambda Q, N: Q.with_(Query.from_(U()).select("a", "b", "c"), "c9", Field("j9"), Field("k9"), Field(N)).from_(AliasedQuery("c9")).select("*"),
+    "for_update_of_case": lambda Q, N: Q.from_(T()).select("a").for_update(of=(N, "Zq8x", "zq8x", "ZQ8X")),
     "cte": lambda Q, N: Q.with_(Query.from_(U()).select("a"), N).from_(AliasedQuery(N)).select(AliasedQuery(N).a),
     "ddl_column": lambda Q, N: Q.create_table("t").columns(Column(N, "INT"), "b").unique(N).primary_key(N),
     # an earlier declared column that differs from the constraint's column only by letter case
@@ -158,7 +162,8 @@ NAME_COUNT = {"table_factory": 1, "table_factory_second": 1, "table_factory_tupl
               "table_alias_star": 3, "table_alias_star_single": 2, "subquery_alias_star": 2, "ddl_period_end": 2, "ddl_period_end_col": 2, "ddl_period_end_mixed": 2, "ddl_period_start_mixed": 2, "ddl_period_start_mixed2": 2,
               "create_as_select": 2, "create_as_select_other_cls": 2,
               "ddl_period_cols": 2, "ddl_period": 1, "table_alias": 3, "subquery_alias": 2, "ddl_column": 3}
-REQUIRED_MORE = {"ddl_period_end_mixed": ["a9", "p9"], "ddl_period_start_mixed": ["b9", "p9"], "ddl_period_start_mixed2": ["b9", "p9"],
+REQUIRED_MORE = {"cte_columns": ["k9"], "cte_columns_last": ["j9", "k9"], "for_update_of_case": ["Zq8x", "zq8x", "ZQ8X"],
+                 "ddl_period_end_mixed": ["a9", "p9"], "ddl_period_start_mixed": ["b9", "p9"], "ddl_period_start_mixed2": ["b9", "p9"],
                  "create_as_select": ["n9"], "create_as_select_other_cls": ["n9"], "ddl_period_end": ["a9", "p9"], "ddl_period_end_col": ["a9", "p9"], "ddl_period_cols": ["b", "p"]}
 
 
